@@ -12,6 +12,7 @@ import (
 	"crypto/elliptic"
 	"crypto/rand"
 	"crypto/rsa"
+	"crypto/tls"
 	"crypto/x509"
 	"crypto/x509/pkix"
 	"errors"
@@ -73,7 +74,9 @@ type MsgSpec struct {
 	Parts    []PartSpec  `json:"parts"`
 	Embeds   []FileSpec  `json:"embeds,omitempty"`
 	Attach   []FileSpec  `json:"attach,omitempty"`
-	SMIME    string      `json:"smime,omitempty"` // "" | rsa | ecdsa
+	SMIME    string      `json:"smime,omitempty"`     // "" | rsa | ecdsa
+	SignVia  string      `json:"sign_via,omitempty"`  // "" SignWithKeypair | tlscert: SignWithTLSCertificate with the process-wide certificate value
+	SignLate bool        `json:"sign_late,omitempty"` // Build does not configure signing; the caller calls Sign later
 	WithInt  bool        `json:"with_intermediate,omitempty"`
 	Extra    [][2]string `json:"extra_headers,omitempty"` // generic headers set through SetGenHeader
 	NoUA     bool        `json:"no_ua,omitempty"`
@@ -501,37 +504,71 @@ func (s *MsgSpec) Build(env *Env) (*mail.Msg, error) {
 	}
 	scratch.Reset()
 	scratch.WriteString(strings.Repeat("OVERWRITTEN-BY-CALLER ", 64))
-	if s.SMIME != "" {
-		k := Keys()
-		var err error
-		var inter *x509.Certificate
-		if s.WithInt {
-			inter = k.InterCert
-		}
-		switch s.SMIME {
-		case "rsa":
-			if s.WithInt {
-				err = m.SignWithKeypair(k.RSAKeyI, k.RSACertI, inter)
-			} else {
-				err = m.SignWithKeypair(k.RSAKey, k.RSACert, nil)
-			}
-		case "ecdsa":
-			if s.WithInt {
-				err = m.SignWithKeypair(k.ECKeyI, k.ECCertI, inter)
-			} else {
-				err = m.SignWithKeypair(k.ECKey, k.ECCert, nil)
-			}
-		case "ed25519-unsupported":
-			// accepted by SignWithKeypair, but the signer supports RSA and ECDSA only: rendering fails before the first byte
-			err = m.SignWithKeypair(k.EdKey, k.EdCert, nil)
-		default:
-			err = fmt.Errorf("unknown smime key type %q", s.SMIME)
-		}
-		if err != nil {
+	if s.SMIME != "" && !s.SignLate {
+		if err := s.Sign(m); err != nil {
 			return nil, err
 		}
 	}
 	return m, nil
+}
+
+// Sign configures S/MIME signing on m as the spec says (Build does it unless SignLate is set).
+func (s *MsgSpec) Sign(m *mail.Msg) error {
+	k := Keys()
+	if s.SignVia == "tlscert" {
+		// SignWithTLSCertificate with one shared *tls.Certificate per (key type, chain) for the whole process
+		c := k.TLSCert(s.SMIME, s.WithInt)
+		if c == nil {
+			return fmt.Errorf("no tls.Certificate for smime key type %q", s.SMIME)
+		}
+		return m.SignWithTLSCertificate(c)
+	}
+	var inter *x509.Certificate
+	if s.WithInt {
+		inter = k.InterCert
+	}
+	switch s.SMIME {
+	case "rsa":
+		if s.WithInt {
+			return m.SignWithKeypair(k.RSAKeyI, k.RSACertI, inter)
+		}
+		return m.SignWithKeypair(k.RSAKey, k.RSACert, nil)
+	case "ecdsa":
+		if s.WithInt {
+			return m.SignWithKeypair(k.ECKeyI, k.ECCertI, inter)
+		}
+		return m.SignWithKeypair(k.ECKey, k.ECCert, nil)
+	case "ed25519-unsupported":
+		// accepted by SignWithKeypair, but the signer supports RSA and ECDSA only: rendering fails before the first byte
+		return m.SignWithKeypair(k.EdKey, k.EdCert, nil)
+	}
+	return fmt.Errorf("unknown smime key type %q", s.SMIME)
+}
+
+// TLSCert returns the process-wide *tls.Certificate (always the same pointer) for a signer.
+func (k *KeySet) TLSCert(kind string, withInt bool) *tls.Certificate {
+	k.tlsMu.Lock()
+	defer k.tlsMu.Unlock()
+	if k.tlsCerts == nil {
+		k.tlsCerts = map[string]*tls.Certificate{}
+	}
+	id := fmt.Sprintf("%s/%t", kind, withInt)
+	if c, ok := k.tlsCerts[id]; ok {
+		return c
+	}
+	var c *tls.Certificate
+	switch {
+	case kind == "rsa" && withInt:
+		c = &tls.Certificate{Certificate: [][]byte{k.RSACertI.Raw, k.InterCert.Raw}, PrivateKey: k.RSAKeyI, Leaf: k.RSACertI}
+	case kind == "rsa":
+		c = &tls.Certificate{Certificate: [][]byte{k.RSACert.Raw}, PrivateKey: k.RSAKey, Leaf: k.RSACert}
+	case kind == "ecdsa" && withInt:
+		c = &tls.Certificate{Certificate: [][]byte{k.ECCertI.Raw, k.InterCert.Raw}, PrivateKey: k.ECKeyI, Leaf: k.ECCertI}
+	case kind == "ecdsa":
+		c = &tls.Certificate{Certificate: [][]byte{k.ECCert.Raw}, PrivateKey: k.ECKey, Leaf: k.ECCert}
+	}
+	k.tlsCerts[id] = c
+	return c
 }
 
 // Shape is a compact description of the message shape used for distinct counting.
@@ -564,6 +601,9 @@ type KeySet struct {
 	ECCert, ECCertI     *x509.Certificate
 	EdKey               ed25519.PrivateKey
 	EdCert              *x509.Certificate
+
+	tlsMu    sync.Mutex
+	tlsCerts map[string]*tls.Certificate
 }
 
 var (
